@@ -997,6 +997,19 @@ def oracles(sim, sc, st):
             if (s['mem'] or 0) != (d.get('mem_per_rank') or 0):
                 v(sim, 'C02', 'mem_exact', 'sched', uid,
                   {'want': d.get('mem_per_rank'), 'got': s['mem']}, seq)
+        seen_c = dict()
+        for s in slots:
+            for ci, _ in s['cores']:
+                key = (s['node_index'], ci)
+                if key in seen_c:
+                    v(sim, 'C02', 'cores_exact', 'sched', uid,
+                      {'core': key, 'shared_by_ranks': True,
+                       'want': c * want_r}, seq)
+                    break
+                seen_c[key] = True
+            else:
+                continue
+            break
         rpn = d.get('ranks_per_node')
         if rpn:
             for ni, k in per_node.items():
@@ -1474,6 +1487,14 @@ def oracle_c08_sched(sim, sc, st):
     for uid in pool:
         if uid in named:
             v(sim, 'C08', 'waitpool_residue', 'scheduler', uid, {},
+              len(sim.events))
+    # a named task which the scheduler had taken and never placed ends as
+    # CANCELED - it does not just disappear from the wait pool
+    L0 = st['ledger']
+    for uid in sorted(named):
+        if uid in L0['handed'] and uid not in L0['grants'] and \
+                uid not in pool and not st['finals'].get(uid):
+            v(sim, 'C08', 'named_vanished', 'scheduler', uid, {},
               len(sim.events))
     for uid, fins in st['finals'].items():
         if uid not in named:
